@@ -82,16 +82,3 @@ Proof.
   split; rewrite E, E0; [rewrite E1; intros _ Hc; discriminate|intro Hc; exfalso; apply Hc; reflexivity].
 Qed.
 
-(* ---------- fixSpaceAfterVarname without the "not commented" guard ---------- *)
-
-Definition spaceAfterVarname_blanks_only_full : Prop :=
-  forall raws vn sp op p0 raws',
-    blankb (sbv p0) = true -> blankb sp = true -> vo p0 = vn ++ sp ++ op ->
-    fixSpaceAfterVarname raws vn sp op p0 = Ok raws' -> Forall2 blank_eq raws raws'.
-
-Lemma spaceAfterVarname_blanks_only_refuted : ~ spaceAfterVarname_blanks_only_full.
-Proof.
-  intro H.
-  specialize (H sav_raws [86]%N [32]%N [61]%N sav_parts _ eq_refl eq_refl eq_refl spaceAfterVarname_drops_comment).
-  inversion H as [|? ? ? ? E _]; subst. vm_compute in E. discriminate.
-Qed.
